@@ -1,3 +1,5 @@
+#[cfg(adlt_verif)]
+use adlt_verif_seam::std;
 // todos
 // [ ] sort by time is only per lifecycle. could interleave lifecycles from different ecus as well (eg bugs-41250)
 
